@@ -93,11 +93,13 @@ package gcsemu
 //@   callback $2 invariant cap(prefixes) == 0 || (obj(prefixes) != obj(addr(prefix)) && obj(prefixes) != obj(addr(cursor)) && obj(prefixes) != obj(addr(delimiter)))
 //@   callback $2 invariant forall k :: 0 <= k < len(found) ==> hasPrefix(found[k].filename, prefix)
 //@   callback $2 invariant forall k :: 0 <= k < len(found) ==> cursor < found[k].filename
+//@   callback $2 invariant typeis(g.store, *filestore) ==> forall k :: 0 <= k < len(found) ==> found[k].fInfo != nil
 //@   callback $2 invariant forall k :: 0 <= k < len(found) ==> delimiter == "" || uf_strIdx(found[k].filename[len(prefix):], delimiter) < 0
 //@   callback $2 invariant forall k :: 0 <= k < len(prefixes) ==> seenPrefixes[prefixes[k]]
 //@   callback $2 invariant forall a, b :: 0 <= a < b < len(prefixes) ==> prefixes[a] != prefixes[b]
 //@   callback $2 invariant forall k :: 0 <= k < len(prefixes) ==> hasPrefix(prefixes[k], prefix)
 //@   loop 1 invariant len(items) <= idx1 + 1
+//@   loop 1 invariant typeis(g.store, *filestore) ==> forall k :: 0 <= k < len(found) ==> found[k].fInfo != nil
 // property C11 "no page holds more than maxResults entries": items + prefixes of the response
 //@   loop 1 invariant len(found) + len(prefixes) <= maxResults
 //@   loop 1 invariant len(items) + len(prefixes) <= maxResults
